@@ -199,3 +199,41 @@ Example C01_late_joiner_nonvacuous :
     | None => False
     end.
 Proof. exact late_joiner_example. Qed.
+
+(* ... and a node in ANY state - behind, ahead, diverged (C06 decides when) - that is sent a snapshot, which replaces its log
+   and is applied over whatever it holds: provided the primary can read every page of its database, the node ends at the
+   primary's position with the primary's logical database, whatever it held before.  Resnapshotting repairs. *)
+Theorem C01_resnapshot_any_state : forall lock hs zf acts c os s1 s2 s' v' sR0 sR,
+  1 <= lock -> wf_hist (init lock) hs -> run_hsteps (init lock) hs = Some s1 ->
+  wf_tx_any s1 zf acts -> run_group s1 (hops s1 (HTx zf acts c)) = (0, s2) -> wal_mode s2 = true ->
+  wf_wops2 s2 os -> run_wops2 s2 (file_h s2) os = Some (s', v') ->
+  lockpg sR0 = lock -> (forall x, 1 <= x <= pageN s' -> x <> lock -> read_page s' x <> None) ->
+  op_receive sR0 (snapshot_file s') = (Done, sR) ->
+  txid sR = txid s' /\ chk sR = chk s' /\ pageN sR = pageN s' /\
+  (forall p, 1 <= p <= pageN s' -> p <> lock -> fpg sR p = lpage s' p).
+Proof. exact resnapshot_history. Qed.
+Print Assumptions C01_resnapshot_any_state.
+
+(* Non-vacuity: the node holds an older database (the primary's state before the switch, position 1) *)
+Example C01_resnapshot_nonvacuous :
+  let pg h := mkPg (fl h) 0 false in
+  let pw h := mkPg (fl h) 0 true in
+  let hs := [HTx [] [AWrite 1 (pg 11); AWrite 2 (pg 12)] 2] in
+  let sw := [AWrite 1 (pw 13)] in
+  let os := [W2Commit [(2, pw 22); (3, pw 33); (2, pw 23)] 3; W2BackfillOld 2 (pw 22); W2Commit [(1, pw 14)] 2; W2Checkpoint;
+             W2Commit [(3, pw 35); (1, pw 15)] 3] in
+  exists s1 s2,
+    wf_hist (init 2097153) hs /\ run_hsteps (init 2097153) hs = Some s1 /\
+    wf_tx_any s1 [] sw /\ run_group s1 (hops s1 (HTx [] sw 2)) = (0, s2) /\ wal_mode s2 = true /\
+    wf_wops2 s2 os /\
+    match run_wops2 s2 (file_h s2) os with
+    | Some (s', v') =>
+        (forall x, 1 <= x <= pageN s' -> x <> 2097153 -> read_page s' x <> None) /\
+        match op_receive s1 (snapshot_file s') with
+        | (Done, sR) => (txid s1, txid sR, pageN sR, chk sR =? chk s', map (fpg sR) [1; 2; 3], length (ltxdir sR))
+                        = (1, 5, 3, true, [pw 15; pw 23; pw 35], 1%nat)
+        | _ => False
+        end
+    | None => False
+    end.
+Proof. exact resnapshot_example. Qed.
